@@ -13,6 +13,8 @@
 //!       For a tuple [x]:    Func::run(vec![x]) vs Func::run1(x)
 //!       For a tuple [x,y]:  Func::run(vec![x,y]) vs Func::run2(x,y); and when run(vec![x,y]) succeeds and
 //!                           run(vec![y]) is a function g: g.run(vec![x]) and g.run1(x) vs run(vec![x,y]).
+//!       For a tuple [x,y,z]: when run(vec![x,y,z]) succeeds and run(vec![z]) is a function g:
+//!                           g.run(vec![x,y]) and g.run2(x,y) vs run(vec![x,y,z]).
 //!       (For Func::Builtin these dispatch straight to Builtin::run / run1 / run2.)
 //!       Outcomes are compared as canonical value + captured output, or "raised"; two function results
 //!       are compared by applying both to the probe tuples. Panics, fuel exhaustion and control-flow
@@ -487,36 +489,52 @@ fn main() {
                         }
                     }
                 }
-                let which = if t.len() == 1 { 1 } else { 2 };
-                let r1 = guarded(p, &func, which, t, fuel, &mut calls)?;
-                if let Out::Skip(s) = &r1 {
-                    if s.starts_with("panic") {
-                        panics.push(json!({"fn": fname, "t": t, "entry": format!("run{}", which), "msg": s}));
+                if t.len() <= 2 {
+                    let which = if t.len() == 1 { 1 } else { 2 };
+                    let r1 = guarded(p, &func, which, t, fuel, &mut calls)?;
+                    if let Out::Skip(s) = &r1 {
+                        if s.starts_with("panic") {
+                            panics.push(json!({"fn": fname, "t": t, "entry": format!("run{}", which), "msg": s}));
+                        }
+                    }
+                    let mut why = String::new();
+                    match same(p, &r0, &r1, &probes, fuel, &mut calls, &mut why)? {
+                        Some(true) => compared += 1,
+                        Some(false) => {
+                            compared += 1;
+                            note("entry", format!("run(vec) vs run{}", which), &r0, &r1, &why, "", &mut diffs);
+                        }
+                        None => bump(&mut counts, "not-compared"),
                     }
                 }
-                let mut why = String::new();
-                match same(p, &r0, &r1, &probes, fuel, &mut calls, &mut why)? {
-                    Some(true) => compared += 1,
-                    Some(false) => {
-                        compared += 1;
-                        note("entry", format!("run(vec) vs run{}", which), &r0, &r1, &why, "", &mut diffs);
-                    }
-                    None => bump(&mut counts, "not-compared"),
-                }
-                if t.len() == 2 {
+                if t.len() >= 2 {
                     if let Out::Val(..) = &r0 {
-                        // f(y): a function?
-                        let s = guarded(p, &func, 0, &t[1..], fuel, &mut calls)?;
-                        if let Out::Val(_, _, Some(g)) = &s {
+                        // f(last): a function? then f(last)(the others) must be f(all)
+                        let k = t.len() - 1;
+                        let s = guarded(p, &func, 0, &t[k..], fuel, &mut calls)?;
+                        // (with more than one other argument only a PartialAppLast can be meant as a section:
+                        //  PartialApp2 takes exactly one more argument by design)
+                        let applicable = match &s {
+                            Out::Val(_, _, Some(g)) => k == 1 || variant(g) == "PartialAppLast",
+                            _ => false,
+                        };
+                        if let (true, Out::Val(_, _, Some(g))) = (applicable, &s) {
                             sections += 1;
-                            for (w, label) in [(0u8, "f(y).run(vec![x])"), (1u8, "f(y).run1(x)")] {
-                                let r = guarded(p, g, w, &t[..1], fuel, &mut calls)?;
+                            let entries: &[(u8, &str)] = if k == 1 {
+                                &[(0u8, "f(y).run(vec![x])"), (1u8, "f(y).run1(x)")]
+                            } else if k == 2 {
+                                &[(0u8, "f(z).run(vec![x,y])"), (2u8, "f(z).run2(x,y)")]
+                            } else {
+                                &[(0u8, "f(last).run(vec![others])")]
+                            };
+                            for (w, label) in entries {
+                                let r = guarded(p, g, *w, &t[..k], fuel, &mut calls)?;
                                 let mut why = String::new();
                                 match same(p, &r0, &r, &probes, fuel, &mut calls, &mut why)? {
                                     Some(true) => compared += 1,
                                     Some(false) => {
                                         compared += 1;
-                                        note("section", format!("f(x,y) vs {}", label), &r0, &r, &why, variant(g), &mut diffs);
+                                        note("section", format!("f(all) vs {}", label), &r0, &r, &why, variant(g), &mut diffs);
                                     }
                                     None => bump(&mut counts, "not-compared"),
                                 }
